@@ -11,10 +11,14 @@ fn expand_items(items: Vec<Item>, out: &mut Vec<proc_macro2::TokenStream>) {
     for it in items {
         match it {
             Item::Trait(mut tr) => {
-                let before = tr.attrs.len();
-                tr.attrs.retain(|a| a.path.to_token_stream().to_string() != "cglue_trait");
-                if tr.attrs.len() != before {
-                    out.push(cglue_gen::traits::gen_trait(tr, None));
+                // attribute macros expand outside-in, one at a time: the output of `cglue_trait` still carries
+                // a `cglue_forward` written below it, which then runs on the re-emitted trait item
+                let is = |a: &syn::Attribute, n: &str| a.path.to_token_stream().to_string() == n;
+                if let Some(pos) = tr.attrs.iter().position(|a| is(a, "cglue_trait") || is(a, "cglue_forward")) {
+                    let which = tr.attrs.remove(pos);
+                    let ts = if is(&which, "cglue_trait") { cglue_gen::traits::gen_trait(tr, None) } else { cglue_gen::forward::gen_forward(tr, None) };
+                    let parsed: syn::File = syn::parse2(ts).expect("re-parse of an attribute expansion failed");
+                    expand_items(parsed.items, out);
                 } else {
                     out.push(tr.to_token_stream());
                 }
